@@ -229,6 +229,9 @@ func (x *Exec) define(st *State, fr *Frame, v ssa.Value, val Val) {
 			}
 			st.declare(n, sort)
 			st.assume(sx("=", n, val.T))
+			if val.K == KBool && st.boolDef != nil {
+				st.boolDef[n] = val.T
+			}
 			val.T = n
 		}
 	}
@@ -242,6 +245,9 @@ func (x *Exec) run(st *State, fr *Frame, b *ssa.BasicBlock, i int) {
 		in := b.Instrs[i]
 		switch in := in.(type) {
 		case *ssa.DebugRef:
+			if x.con != nil && len(x.con.AnchoredUses) > 0 && fr.parent == nil && !in.IsAddr && in.Object() != nil {
+				x.anchoredUses(st, fr, in)
+			}
 			continue
 		case *ssa.If:
 			c := x.get(st, fr, in.Cond)
@@ -291,6 +297,14 @@ func (x *Exec) run(st *State, fr *Frame, b *ssa.BasicBlock, i int) {
 
 func (x *Exec) branch(st *State, fr *Frame, b *ssa.BasicBlock, cond string) {
 	switch cond {
+	case "true":
+		x.enterBlock(st, fr, b, b.Succs[0])
+		return
+	case "false":
+		x.enterBlock(st, fr, b, b.Succs[1])
+		return
+	}
+	switch st.known(cond) {
 	case "true":
 		x.enterBlock(st, fr, b, b.Succs[0])
 		return
@@ -484,6 +498,11 @@ func (x *Exec) simple(st *State, fr *Frame, in ssa.Instruction) {
 				bail("load through non-pointer %v", in.X.Type())
 			}
 			x.nilCheck(st, fr, a, in.Pos())
+			if g, ok := in.X.(*ssa.Global); ok && isErrorType(in.Type()) && x.P.globalConst(g) {
+				// package-level error variable that is never reassigned: a sentinel value
+				fr.vals[in] = Val{K: KErr, Typ: in.Type(), T: x.sentinel(g.Pkg.Pkg.Path() + "." + g.Name())}
+				return
+			}
 			v := x.load(st, a.Ptr)
 			v.Typ = in.Type()
 			if v.K == KInt || v.K == KFloat || v.K == KSlice || v.K == KStruct {
@@ -1225,4 +1244,29 @@ func (x *Exec) paramCellable(p *ssa.Parameter, depth int) bool {
 		return true
 	}
 	return ok(p, depth)
+}
+
+// anchoredUses applies "use lemma(args) at V" the first time local variable V is bound on this path.
+func (x *Exec) anchoredUses(st *State, fr *Frame, dr *ssa.DebugRef) {
+	name := dr.Object().Name()
+	for i, au := range x.con.AnchoredUses {
+		if au.Anchor != name {
+			continue
+		}
+		if _, ok := fr.vals[dr.X]; !ok {
+			if _, isC := dr.X.(*ssa.Const); !isC {
+				continue
+			}
+		}
+		key := fmt.Sprintf("anchored:%d", i)
+		if st.ghost[key] != "" {
+			continue
+		}
+		st.ghost[key] = "1"
+		env := &Env{st: st, vars: map[string]Val{}, pkg: x.con.Pkg, old: x.entry, fr: fr, localsFirst: true}
+		for k, v := range x.params {
+			env.vars[k] = v
+		}
+		x.useLemma(st, env, au.E, x.con.Props)
+	}
 }
